@@ -30,8 +30,10 @@ structure Fault where
   wrote : Nat
 deriving Repr, DecidableEq
 
-/-- overwrite `bs` at `off`, zero-filling a gap beyond the end (POSIX) -/
+/-- overwrite `bs` at `off`, zero-filling a gap beyond the end (POSIX); a transfer of zero bytes changes nothing,
+    in particular it does not extend the file up to a position beyond its end -/
 def overwrite (d : List Byte) (off : Nat) (bs : List Byte) : List Byte :=
+  if bs.isEmpty then d else
   let d' := if d.length < off then d ++ List.replicate (off - d.length) 0 else d
   d'.take off ++ bs ++ d'.drop (off + bs.length)
 
